@@ -56,7 +56,7 @@ func ReplayFile(path string) int {
 	}
 	if eng, _ := f.Replay["engine"].(string); eng == "E4" {
 		si := fmt.Sprint(f.Replay["scenario_index"])
-		cmd := exec.Command("/verif/bin/kscheck", "replay", si, fmt.Sprint(f.Replay["choices"]))
+		cmd := exec.Command(sibling("kscheck"), "replay", si, fmt.Sprint(f.Replay["choices"]))
 		out, err := cmd.CombinedOutput()
 		fmt.Print(string(out))
 		if strings.Contains(string(out), "VIOLATION kind=") {
